@@ -40,6 +40,10 @@ TimeEast  == DTime(1969, 12, 31, 23, 59, 59, 999000000, 330, 0)      \* +05:30, 
 TimeZero  == DTime(1, 1, 1, 0, 0, 0, 0, 0, 1)                        \* time.Time{}
 TimeWest0 == DTime(1960, 2, 29, 0, 10, 0, 0, -30, 0)                 \* -00:30 (offsets between -00:59 and -00:01 exist in tzdata history)
 TimeGMT   == DTime(2024, 2, 29, 23, 59, 59, 1000000, 0, 0)           \* offset 0 in a location that is not time.UTC
+TimeKiri  == DTime(2021, 3, 14, 1, 59, 26, 535000000, 840, 0)        \* +14:00
+TimeMarq  == DTime(2021, 3, 14, 1, 59, 26, 535000000, -570, 0)       \* -09:30
+TimeBaker == DTime(1999, 12, 31, 12, 0, 0, 0, -720, 0)               \* -12:00: the same instant as 2000-01-01T00:00Z
+TimeMin1  == DTime(2000, 1, 1, 0, 0, 30, 0, 1, 0)                    \* +00:01: crosses midnight (and the year) in UTC
 Leaves == <<
   DNil, DBool(1), DBool(0),
   I64(n0), I64(nm1), I64(nI64max), I64(nI64min), DInt("uint64", nU64max), DInt("uint64", nU63), DInt("int8", nI8min),
@@ -47,7 +51,7 @@ Leaves == <<
   F64(f15), F64(f1e21), F64(fDen), F64(txtNaN), F64(txtPInf), F64(txtNInf), DFloat("float32", f01), F64(fNeg0), F64(f1em7),
   F64(fMax), DFloat("float32", fF32max), F64(fBig), F64(fSmallNeg),
   DStr(<<>>), DStr(sQ), DStr(sMix), DStr(sSp),
-  TimeUTC, TimeHalf, TimeZone, TimeEast, TimeZero, TimeWest0, TimeGMT,
+  TimeUTC, TimeHalf, TimeZone, TimeEast, TimeZero, TimeWest0, TimeGMT, TimeKiri, TimeMarq, TimeBaker, TimeMin1,
   DPtr(I64(nm1)), DNilPtr, DPtr(DStr(sQ)),
   DBytes(0, <<0, 1, 2, 3, 4, 5>>), DBytes(0, <<>>), DBytes(1, <<>>), DBytes(0, <<255>>), DBytes(0, <<250, 251>>)
 >>
@@ -103,7 +107,13 @@ Maps == <<
   DMap("bool", <<E(kTrue, I64(n7)), E(kFalse, DNil)>>),
   DMap("string", <<E(kb, I64(n7)), E(ka, DNil), E(kB, DBool(1)), E(kE, DStr(sA))>>),
   DMap("string", <<E(kScr, DStr(kScr)), E(kQ, DStr(kQ)), E(<<>>, DStr(<<>>)), E(kLt, DNil)>>),
-  DMap("string", <<E(ka, F64(txtNaN))>>)
+  DMap("string", <<E(ka, F64(txtNaN))>>),
+  \* depth 3, several entries at every level, multi-entry maps in non-last positions (listed unsorted)
+  DMap("string", <<E(kb, DMap("string", <<E(kLt, I64(n7)), E(kE, I64(nm1)), E(kB, DNil)>>)),
+                   E(ka, DMap("string", <<E(kb, DMap("int", <<E(k10, DBool(1)), E(k2, DBool(0)), E(km1, DNil)>>)), E(ka, DSlice(0, <<DMap("string", <<E(kb, I64(n0)), E(ka, I64(n7))>>), I64(n7)>>))>>)),
+                   E(kB, I64(n7))>>),
+  DSlice(0, <<DMap("string", <<E(kb, I64(n7)), E(ka, DMap("string", <<E(kb, I64(n0)), E(ka, I64(n7))>>)), E(kB, I64(n0))>>),
+              DMap("string", <<E(kb, I64(nm1)), E(ka, I64(n0))>>), DMap("bool", <<E(kTrue, I64(n7)), E(kFalse, DNil)>>)>>)
 >>
 Depth1 == ContainersOver(Leaves, Full) \o Structs \o Typed \o Maps
 
@@ -187,12 +197,11 @@ PrintParseOf(a, L, style) ==
   IsBad(a) \/ (L = "json" /\ HasNonFinite(a)) \/ HasUnprintable(a, style) \/ ParseWhole(PrintV(a, L, style), L) = a
 PrintParseBoth(d) == LET aj == Abs(d, "json", Strict)  as == Abs(d, "js", Strict) IN
                      PrintParseOf(aj, "json", 1) /\ PrintParseOf(aj, "json", 2) /\ PrintParseOf(as, "js", 1) /\ PrintParseOf(as, "js", 2)
-\* (the two transcriptions differ only where a non-finite float is printed)
 VerdictsOf(d) ==
   LET vjs == Verdict(ModelRec(d, "js", FALSE))  vjson == Verdict(ModelRec(d, "json", FALSE)) IN
      [js |-> vjs, json |-> vjson,
-      jsfix |-> IF DescNonFinite(d) THEN Verdict(ModelRec(d, "js", TRUE)) ELSE vjs,
-      jsonfix |-> IF DescNonFinite(d) THEN Verdict(ModelRec(d, "json", TRUE)) ELSE vjson,
+      jsfix |-> IF Model(d, "js", TRUE) = Model(d, "js", FALSE) THEN vjs ELSE Verdict(ModelRec(d, "js", TRUE)),
+      jsonfix |-> IF Model(d, "json", TRUE) = Model(d, "json", FALSE) THEN vjson ELSE Verdict(ModelRec(d, "json", TRUE)),
       pp |-> PrintParseBoth(d)]
 NoVerdicts == [js |-> "ok", json |-> "ok", jsfix |-> "ok", jsonfix |-> "ok", pp |-> TRUE]
 \* evaluated once, as a constant (TLC caches LET-bound values in constants, not inside actions: see Trace_ValueLit)
@@ -207,9 +216,10 @@ AsFoundCauses == {"non-finite-float", "embedded-struct-not-flattened", "nil-byte
                   "js-date-negative-subhour-offset"}
 \* the transcription satisfies the property except for the named as-found causes ...
 ModelMeetsRefExceptAsFound == \A v \in {vd.js, vd.json} : v = "ok" \/ IsSkip(v) \/ v \in AsFoundCauses
-\* ... and with the proposed fix of the non-finite case that cause is gone and nothing else changes
-FixRemovesNonFinite == /\ vd.jsfix # "non-finite-float" /\ vd.jsonfix # "non-finite-float"
-                       /\ (vd.js # "non-finite-float" => vd.jsfix = vd.js) /\ (vd.json # "non-finite-float" => vd.jsonfix = vd.json)
+\* ... and with the non-finite fix that cause is gone (the other three fixes remove their causes too: next invariant)
+FixRemovesNonFinite == vd.jsfix # "non-finite-float" /\ vd.jsonfix # "non-finite-float"
+\* the transcription of the tree after the four fixes satisfies the property except for embedded structs
+FixedTreeOnlyEmbedded == \A v \in {vd.jsfix, vd.jsonfix} : v = "ok" \/ IsSkip(v) \/ v = "embedded-struct-not-flattened"
 \* the transcription's output is always a sentence of the language unless a non-finite float is involved
 ModelAlwaysParses == \A v \in {vd.js, vd.json, vd.jsfix, vd.jsonfix} : v \notin {"not-a-literal", "unbound-identifier", "skip_out_undefined"}
 \* non-vacuity: every as-found cause, "ok" and a skip verdict occur somewhere in the space
